@@ -375,7 +375,9 @@ def main():
         path = os.path.join(OUT, name)
         try:
             txt = fn()
-        except TranslateError as e:
+        except Exception as e:
+            if type(e).__name__ != "TranslateError":
+                raise
             sys.stderr.write("TRANSLATE-ERROR %s: %s\n" % (name, e))
             # leave a file that cannot compile so no stale table is used
             txt = "(* translator failed: %s *)\nTranslator_failed.\n" % str(e).replace("*)", "* )")
